@@ -475,9 +475,19 @@ where
             )));
         };
 
+        let existing_rrset = tree_node.get_rrset(rtype).await?;
+
+        // RFC 5936 section 2.2: "AXFR clients MUST ignore any duplicate RRs
+        // received", an RRset cannot hold the same record twice.
+        if let Some(existing_rrset) = &existing_rrset {
+            if existing_rrset.data().contains(&data) {
+                return Ok(());
+            }
+        }
+
         rrset.push_data(data);
 
-        if let Some(existing_rrset) = tree_node.get_rrset(rtype).await? {
+        if let Some(existing_rrset) = existing_rrset {
             for existing_data in existing_rrset.data() {
                 rrset.push_data(existing_data.clone());
             }
